@@ -89,7 +89,7 @@ class C15(Prop):
             small = r == 4
             m = rng.choice([3, 4, 5, 6]) if small else rng.choice([4, 6, 9, 15, 25, 40])
             alts = list(range(1, m + 1))
-            style = rng.choice(["sp", "sc", "tree", "random", "sp-perturbed"])
+            style = rng.choice(["sp", "sc", "tree", "random", "sp-perturbed", "sc-perturbed", "sc-perturbed"])
             nn = rng.randint(2, 6) if small else rng.choice([3, 8, 20, 60, 300])
             if style in ("sp", "sp-perturbed"):
                 votes = [[c[0] for c in v] for v in sp_votes(rng, gen.perm(rng, alts), nn)]
@@ -97,8 +97,16 @@ class C15(Prop):
                     k = rng.randrange(len(votes))
                     a, b = rng.sample(range(m), 2)
                     votes[k][a], votes[k][b] = votes[k][b], votes[k][a]
-            elif style == "sc":
+            elif style in ("sc", "sc-perturbed"):
                 votes = [list(o) for o in sc_walk(rng, alts, m * (m - 1) // 2)][:nn]
+                if style == "sc-perturbed" and len(votes) >= 3:
+                    # a pair that swaps and later swaps back: locally plausible, globally not single-crossing
+                    k = rng.randrange(1, len(votes))
+                    v = list(votes[k])
+                    i = rng.randrange(m - 1)
+                    v[i], v[i + 1] = v[i + 1], v[i]
+                    votes[k] = v
+                rng.shuffle(votes)
             elif style == "tree":
                 votes = tree_votes(rng, alts, min(nn, 20))
             else:
